@@ -149,6 +149,19 @@ def c16b(ctx):
                 pinned_moves = [m for m in mv if any(x.kind == "agg" and x.site.node["rv"].get("vname") == "Pinned" for x in df.origins_of_operand(b, m.node["args"][2]))]
                 if fn == "Policy::on_write" and not pinned_moves:
                     ctx.fail(o, cb, "an unconfirmed victim in %s is not moved to the Pinned region" % fn)
+    # Policy::on_write: a key the policy does not know yet is entered into the window (new_entry) — the `already known` shortcut
+    # is taken exactly on a read hit
+    wb = ctx.touch(prog.body("Policy::on_write"))
+    ne = wb.calls_to(r"Lru::<K>::new_entry$")
+    total += len(ne)
+    if len(ne) != 1:
+        ctx.fail(o, Site(wb, 0, 0), "anchor missing: Lru::new_entry in Policy::on_write")
+    else:
+        g = df.guarded_by(wb, ne[0].bb, lambda c: c.kind == "call" and c.callee.endswith("on_read_hit"))
+        pol = {((v != 0) != c.negated) for sb, v, tb, c in g if v != "otherwise"} | {(not c.negated) for sb, v, tb, c in g if v == "otherwise"}
+        if pol != {False}:
+            ctx.fail(o, ne[0], "Policy::on_write enters a key into the LRU under on_read_hit() == %s (must be: exactly when it is NOT already known): new entries are never "
+                     "tracked, so never evicted" % (sorted(pol) or "no test"))
     # Policy::unpin: an un-pinned key must not stay in the Pinned region: it either goes back to probation or is dropped
     # (storage-confirmed) or stays pinned because the storage refused — it is never left where nothing evicts it
     ub = ctx.touch(prog.body("Policy::unpin"))
